@@ -13,7 +13,7 @@ LEVEL = 'exploration'
 S = ps.ProcessState
 ACTS = [sched.KILL, sched.PAUSE, sched.PLAY, sched.RESUME, sched.CANCEL]
 NACT = len(ACTS)
-NWHERE = 5
+NWHERE = 7   # gap, 4 listener notification kinds, ENTERING_STATE / EXITING_STATE callbacks
 NPOS = 12
 CANCEL_TEXT = 'Killed by future being cancelled'
 
@@ -23,7 +23,7 @@ def eff_key(run, reqs, r):
     that the loop runs after the callbacks already queued (FIFO), i.e. during tick r.tick + queue_len"""
     if r.act == sched.CANCEL:
         return (cancel_tick(r), 10 ** 6)
-    return (r.tick, reqs.index(r))
+    return (r.tick, r.seq)
 
 
 def cancel_tick(r):
@@ -34,7 +34,7 @@ def cancel_tick(r):
 def facts_of(run, reqs, first):
     k0 = eff_key(run, reqs, first)
     others = [r for r in reqs if r.applied and r is not first and r.tick is not None]
-    after = [r for r in others if (r.tick, reqs.index(r)) > (first.tick, reqs.index(first))]
+    after = [r for r in others if (r.tick, r.seq) > (first.tick, first.seq)]
     before = [r for r in others if r not in after]
     return dict(
         kill_where=sched.WHERE_NAMES[first.where],
@@ -65,6 +65,10 @@ def oracle(run, reqs):
                 if not killed_by_cancel:
                     continue
         killers.append(r)
+    # a kill issued from a state-event callback while the process is already moving into a terminal state races with
+    # the termination: either outcome is fine, but what kill() returned must still be truthful (checked in (d))
+    racing = [r for r in killers if r.pre['into_terminal']]
+    killers = [r for r in killers if not r.pre['into_terminal']]
     killers.sort(key=lambda r: eff_key(run, reqs, r))
     for r in reqs:
         if r.applied and r.act == sched.KILL and r.exc is not None:
@@ -110,10 +114,15 @@ def oracle(run, reqs):
                 raise Violation('kill_text', **f)
             if first.act == sched.CANCEL:
                 NOTES.witness('future_cancel_killed')
-        # (d) the value / future returned by each kill resolves to True exactly when the process ended KILLED
-        for r in killers:
+    # (d) the value / future returned by each kill resolves to True exactly when the process ended KILLED
+    if killers or racing:
+        st = p.state
+        f = facts_of(run, reqs, (killers + racing)[0])
+        for r in killers + racing:
             if r.act != sched.KILL:
                 continue
+            if r.pre['into_terminal']:
+                NOTES.witness('kill_racing_with_termination')
             ret = r.ret
             if ret is True or ret is False:
                 val = ret
@@ -220,6 +229,12 @@ def shards(tier):
             for a0 in range(NACT):
                 out.append(dict(name=f'sched2/prog={prog},a0={a0},gaps', harness='sched2',
                                 fixed=dict(prog=prog, a0=a0, w0=0, w1=0), budget_s=300))
+                if prog in (2, 7):
+                    # both requests anywhere (gap, listener notification, state-event callback) for a waiting program
+                    # and a workchain
+                    for w0 in range(1, NWHERE):
+                        out.append(dict(name=f'sched2/prog={prog},a0={a0},w0={w0}', harness='sched2',
+                                        fixed=dict(prog=prog, a0=a0, w0=w0), budget_s=600))
         else:
             for a0 in (0, 4):
                 out.append(dict(name=f'sched1/prog={prog},a0={a0}', harness='sched1', fixed=dict(prog=prog, a0=a0), budget_s=600))
@@ -236,10 +251,10 @@ def shards(tier):
 
 
 BOUNDS = {
-    'quick': dict(requests='K = 2 in gaps (at least one kill or future().cancel()); K = 1 kill/cancel from inside a listener notification, on a fresh process and on one restored from a checkpoint',
-                  actions=[sched.ACT_NAMES[a] for a in ACTS], positions=f'gaps 0..{NPOS}; listener notification occurrence 0..2', programs='P0..P10',
+    'quick': dict(requests='K = 2 in gaps (at least one kill or future().cancel()), for P2 and P7 also K = 2 with any placement of both requests; K = 1 kill/cancel from inside a listener notification or an ENTERING_STATE/EXITING_STATE callback during the transition at the end of a step, on a fresh process and on one restored from a checkpoint',
+                  actions=[sched.ACT_NAMES[a] for a in ACTS], positions=f'gaps 0..{NPOS}; listener notification / state-event callback occurrence 0..2', programs='P0..P10',
                   data='kill text str len <= 2 (symbolic), resume value int'),
-    'thorough': dict(requests='K = 1 (fresh and restored process); K = 2 in gaps for all programs and with gap or listener placement for each request for P1 P2 P3 P7 P8; K = 3 in gaps for P1 P2 P3', actions=[sched.ACT_NAMES[a] for a in ACTS],
+    'thorough': dict(requests='K = 1 (fresh and restored process); K = 2 in gaps for all programs and with gap, listener-notification or state-event-callback placement for each request for P1 P2 P3 P7 P8; K = 3 in gaps for P1 P2 P3', actions=[sched.ACT_NAMES[a] for a in ACTS],
                      positions=f'gaps 0..{NPOS}', programs='P0..P10', data='str len <= 2 (<= 1 for K = 3), int'),
 }
 OUTSIDE = ['more than K requests', 'kill through a communicator (C16)', 'hooks that raise (C03)', 'real threads']
@@ -247,7 +262,9 @@ RULE = ('paths over (program, K requests incl. >= 1 kill/cancel, placement, text
 SOLVER_ROLE = 'selector role for placements/actions; data role for the kill text (killed_msg compared symbolically with the first kill text)'
 EXPLANATION = 'kill is never lost / never raises / reports truthfully / text recorded; future().cancel() == kill; final probing kill from every live end configuration'
 ASSUMPTIONS = ['environment policy at idle ticks: play a paused process, resume a waiting one / complete its awaited future',
-               'a kill issued from inside a listener notification (mid-transition) takes effect at that step boundary: the state being entered is not executed']
-REQUIRED_WITNESSES = ['restored_process', 'future_cancel_killed', 'kill_during_step', 'kill_from_listener', 'kill_while_paused', 'kill_while_waiting', 'kill_returned_future']
+               'a kill issued from inside a listener notification (mid-transition) takes effect at that step boundary: the state being entered is not executed',
+               'requests from ENTERING_STATE/EXITING_STATE callbacks are issued only during transitions performed by step() (a control call from inside the transition of another direct control call re-enters transition_to, which plumpy forbids by assertion)',
+               'a kill issued from such a callback while the process is already moving into a terminal state races with the termination: either outcome is accepted, but the value/future returned by kill() must resolve and be truthful']
+REQUIRED_WITNESSES = ['kill_racing_with_termination', 'restored_process', 'future_cancel_killed', 'kill_during_step', 'kill_from_listener', 'kill_while_paused', 'kill_while_waiting', 'kill_returned_future']
 LEVEL_TEXT = ('bounded exhaustive symbolic exploration of schedules containing a kill (or future cancel) against every other control request: '
               'kill never raises, the process ends KILLED before any further step starts, returned value/future truthful, text recorded, and no live end configuration is unkillable')
